@@ -6,4 +6,5 @@ INVARIANT OperandInv
 INVARIANT CallInv
 INVARIANT ParInv
 INVARIANT InPlaceInv
+INVARIANT SameBaseInv
 CHECK_DEADLOCK FALSE
